@@ -93,7 +93,7 @@ void h_run(Case &c) {
   int nud = 0; std::vector<UD *> uds;
   for (auto o : objs) { o->userdata = NULL; if (nud < 12 && d.chance(1, 8)) { UD *u = new UD; uds.push_back(u); int n = d.range(0, 3);
       for (int i = 0; i < n; i++) { bool b64 = d.chance(1, 2); std::string data; int L = d.range(0, 9);
-        for (int j = 0; j < L; j++) { if (b64) data += (char)d.range(0, 255); else { char ch = (char)d.range(32, 126); if ((ch == '<' || ch == '&' || ch == '>') && !plain_escapable_ok) { ch = 'x'; c.excluded("F-C05-a"); } data += ch; } }
+        for (int j = 0; j < L; j++) { if (b64) data += (char)d.range(0, 255); else { char ch = (char)d.range(32, 126); if (d.chance(1, 6)) ch = " \t\n "[d.range(0, 3)];   /* blanks are valid userdata bytes, also first and last */ if ((ch == '<' || ch == '&' || ch == '>') && !plain_escapable_ok) { ch = 'x'; c.excluded("F-C05-a"); } data += ch; } }
         std::string nm = rstr(d, 5, false); bool hn = d.chance(2, 3); u->items.push_back({nm, data}); u->b64.push_back(b64); u->hasname.push_back(hn); }
       o->userdata = u; nud++; } }
   hwloc_topology_set_userdata_export_callback(t, exp_cb);
